@@ -75,7 +75,7 @@ package optracker
 //@ extern trace.StartSpan(ctx, name, o)
 //@   ensures res1 == uf("spanContextOf", "context.Context", ctx)
 //@ func (opt *OperationTracker) TrackNewOperation
-//@   property C05 C18
+//@   property C05 C18 C06
 //@   opts own
 //@   at_call NewOperation assert [operation-context-hangs-off-the-trackers] arg_ctx == uf("spanContextOf", "context.Context", uf("ctxWithSpanUnder", "context.Context", opt.ctx))
 //@   requires tableInv(opt) && pin != nil
